@@ -2053,7 +2053,7 @@ class Logger:
 
         try:
             frame = get_frame(depth + 2)
-        except ValueError:
+        except (ValueError, OverflowError):
             f_globals = {}
             f_lineno = 0
             co_name = "<unknown>"
